@@ -10,6 +10,28 @@ TRUST = ("Trusted: rustc nightly's type checker and MIR construction as dumped b
          "frozen); clang 14's AST for the vendored C where used. ")
 
 CLAIMED = {
+    "C02": dict(
+        technique="must-pass-through (dominator) + verdict-use + provenance rules on the decoders' MIR; call-graph recursion review",
+        text="Decides that each canonicity mechanism the decoders rely on (canonical-order comparison, hidden-node set, "
+             "program and witness close()/padding test, set_arrow_to_program, InternalSharing conversion, IHR sharing set keyed "
+             "on the IHR, CommitNode sharing check) lies on every success path and has its verdict consumed (wrapper-aware, so "
+             "inlining a helper does not alarm); that every index subtraction is bounded by read_natural(Some(index)), the word "
+             "length by a constant <= 32 and the natural-number accumulator by 31 bits; that allocations sized by decoded "
+             "numbers are clamped; and that recursion reachable from the decoders is reviewed. Reports the genuine input-depth "
+             "recursion F-REC-UNIFY as a known finding. Does not decide totality in general nor re-encoding equality.",
+        note=TRUST + "Assumes PostOrderIter's index bookkeeping (C18) and the bit reader's arithmetic (C13), which are not decided.",
+        design="3/C02"),
+    "C04": dict(
+        technique="provenance shapes of constructors vs typing rules (up to renaming); dominator rules; guard-liveness + call-graph lock rule",
+        text="Decides that each of the 18 Arrow constructors builds exactly the typing rule of its combinator (shared/independent "
+             "fresh variables, unified pairs, product bindings, operand order), that assertions bind only the present child, that "
+             "binding a sum/product binds both components pairwise on every success path, that the occurs check precedes every "
+             "iteration of a possibly cyclic type (and its own completed-test precedes in-progress marking), that free variables "
+             "finalise to unit, that error display is depth/length bounded, that finalize_types pins the root to 1→1, and that the "
+             "context mutex is never re-entered while held. Reports F-REC-UNIFY (input-depth recursion) as a known finding. "
+             "Soundness/principality of the union-bound unifier itself is not decided.",
+        note=TRUST + "The typing-rule table in c04.py is transcribed from the Simplicity language definition.",
+        design="3/C04"),
     "C05": dict(
         technique="arm-region template extraction from MIR (path enumeration + expression reconstruction) against the Bit Machine's operational semantics",
         text="Decides the interpreter-shape clause only: for each of the 16 combinators and each decision path (choice bit, "
